@@ -52,7 +52,7 @@ def rand_schedule(rng):
 def run(ctx):
     rng = ctx.rng
     n = ctx.n(25, 300)
-    nsched = ctx.n(5, 30)
+    nsched = ctx.n(7, 30)
     entries = []
     for i in range(n):
         option = lc.OPTIONS[i % 3]
